@@ -87,6 +87,9 @@ class Program:
     def resolve(self, qualname):
         """'valida.conditions:Condition._filter' -> real function object."""
         mod, path = qualname.split("#")[0].split(":")
+        if mod not in self.modules and mod.startswith(("spec.", "contracts.")):
+            import importlib
+            self.modules[mod] = importlib.import_module(mod)
         obj = self.modules[mod]
         for p in path.split("."):
             try:
